@@ -21,6 +21,10 @@ base and Chinese):
                 month/day probes: past = latest occurrence strictly before the reference date, future = earliest on or after.
   C09.weekday   the bare-weekday branch (base and Chinese) is evaluated over weekday table values 0..7 x 7 reference weekdays
                 x 00:00/12:00 against the same specification; the sibling implementations must agree.
+  C09.lookup-case  every `x in self.config.<dict>` / `self.config.<dict>[x]` / `.get(x)` whose key derives from a regex group
+                (flow-sensitive inside the function; parameter and return states by a fixpoint over the self.<m>() call sites,
+                entry points parse / extract are raw) sees lower-cased text when every key of the culture's table(s) is lower
+                case: the capture passes through .lower() or the searched text was lower-cased.
   C09.numeric-order  per culture, under the default configuration, the first pattern of date_regex_list that can read a bare
                 `a/b` / `a-b` (no look-behind context) has the day/month group order the culture declares
                 (DefaultLanguageFallback); dotted layouts are fixed by the Specs and only observed.
